@@ -62,7 +62,7 @@ def shift_js(js, days):
     return js
 
 
-def add_unrelated_gc(js, rng):
+def add_unrelated_gc(js, rng, first=False):
     js = copy.deepcopy(js)
     other = scen.gen_scenario(rng, n_gc=1, n_veh=2, steps=js["scenario"]["n_intervals"], interval=js["scenario"]["interval"])
     start0 = datetime.datetime.fromisoformat(js["scenario"]["start_time"])
@@ -125,6 +125,15 @@ def add_unrelated_gc(js, rng):
                  "cost": {"type": "fixed", "value": rng.choice([0.1, 0.4])}} for t in times]
     half = len(mirrored) // 2
     js["events"]["grid_operator_signals"] = mirrored[:half] + js["events"]["grid_operator_signals"] + mirrored[half:]
+    if first:
+        # the unrelated connector comes FIRST in every component dictionary and owns a charged stationary battery: per-connector
+        # state that a strategy forgets to reset leaks from it into the existing connectors (round-3 seed C16-s7)
+        comp0 = js["components"]
+        if not any(b_["parent"] == xg for b_ in comp0["batteries"].values()):
+            comp0["batteries"]["XBATX"] = {"parent": xg, "capacity": 100, "charging_curve": [[0, 30], [1, 30]], "soc": 0.9}
+        for key in ("grid_connectors", "charging_stations", "batteries"):
+            d_ = comp0[key]
+            comp0[key] = dict([(k, v) for k, v in d_.items() if k.startswith("X")] + [(k, v) for k, v in d_.items() if not k.startswith("X")])
     return js
 
 
@@ -199,7 +208,7 @@ class HistoryUnit(corr.Unit):
             s3 = sc.Scenario(shift_js(case["js"], 7 * case["weeks"]), "")
             res["shift"] = same_run(r1, plain_run(s3, case["strategy"], case["options"]))
             if case["strategy"] in ("greedy", "balanced", "distributed", "peak_shaving", "balanced_market"):
-                js4 = add_unrelated_gc(case["js"], random.Random(case["seed"]))
+                js4 = add_unrelated_gc(case["js"], random.Random(case["seed"]), first=case["seed"] % 2 == 0)
                 s4 = sc.Scenario(js4, "")
                 r4 = plain_run(s4, case["strategy"], case["options"])
                 res["unrelated"] = same_run(r1, r4, gcs=list(r1["total"]), nveh=len(case["js"]["components"]["vehicles"]), prefix=True)
